@@ -2,6 +2,7 @@ package rangeproof
 
 import (
 	"fmt"
+	"math"
 	"strconv"
 
 	"github.com/privacybydesign/gabi/big"
@@ -216,6 +217,11 @@ func newWithParams(index, sign int, a uint, k *big.Int, split SquareSplitter, nS
 	}
 	if sign != 1 && sign != -1 {
 		return nil, ErrUnsupportedSign
+	}
+	// The factor is used as a signed 64 bit power below; a larger value would wrap around to a
+	// negative one, so that the relation being proved no longer is the statement being reported.
+	if a > math.MaxInt64 {
+		return nil, errors.New("factor too large")
 	}
 
 	var exp *big.Int
